@@ -922,7 +922,7 @@ func (rn *runner) judgeEnd(p *program, finished bool) {
 
 // randomScenario: generated program, 2..16 threads.
 // stragglers returns the stack of a goroutine that is inside the ECAL
-// interpreter or a pool worker loop right now ("" if there is none). Called
+// interpreter right now ("" if there is none). Called
 // between scenarios, when no thread of the harness is supposed to exist.
 func stragglers() string {
 	self := sched.GoID()
@@ -930,7 +930,9 @@ func stragglers() string {
 		if g.ID == self {
 			continue
 		}
-		if g.Has("github.com/krotik/ecal/interpreter.") || g.Has("pool.(*ThreadPoolWorker).run") {
+		// (a pool worker that is on its way out after JoinAll returned executes no
+		// ECAL code any more and is not counted)
+		if g.Has("github.com/krotik/ecal/interpreter.") {
 			fr := g.Frames
 			if len(fr) > 12 {
 				fr = fr[:12]
